@@ -249,3 +249,18 @@ Definition ll_eqb : list (list N) -> list (list N) -> bool := list_eqb nlist_eqb
 Definition oshape_eqb (a b : oshape_t) : bool :=
   objtype_eqb (fst a) (fst b) && list_eqb ll_eqb (snd a) (snd b).
 Definition shape_eqb : shape_t -> shape_t -> bool := list_eqb oshape_eqb.
+
+(* ------------------------------------------------------------------ histories *)
+(* every id of a real operation has counter >= 1 (start_op is a NonZeroU64); (0, []) is the root / head *)
+Definition wf_ids (ops : list op) : Prop :=
+  (forall x, In x (ids_of ops) -> x = root_id \/ 1 <= fst x) /\ (forall o, In o ops -> 1 <= fst (op_id o)).
+Definition wf_ids_b (ops : list op) : bool :=
+  forallb (fun x => opid_eqb x root_id || (1 <=? fst x)) (ids_of ops) && forallb (fun o => 1 <=? fst (op_id o)) ops.
+
+(* actors and hashes a history (read at heads hs) mentions *)
+Definition hist_actors (appl : list change) : list actor :=
+  map ch_actor appl ++ map snd (ids_of (all_ops appl)).
+Definition hist_hashes (appl : list change) (hs : list N) : list N :=
+  hs ++ hashes appl ++ flat_map ch_deps appl.
+
+Definition rn_clock (R : renaming) (k : clock) : clock := map (fun an => (r_actor R (fst an), snd an)) k.
